@@ -46,12 +46,12 @@ LabelOK(c, v) == /\ Len(v.keys) = c.n /\ \A p, q \in Pos(c) : (p # q => v.keys[p
                  /\ Admissible(FFof(c), v.files)
 RecProblems(r) == LET c == CaseT(r.case)
                       exp == Expected(c)
-                  IN {[rec |-> c.id, var |-> k, what |-> "not a presentation of the same input"] : k \in {q \in DOMAIN r.vars : ~LabelOK(c, r.vars[q].var)}}
-                     \cup {[rec |-> c.id, var |-> k, what |-> "projection differs from the declared result"] : k \in {q \in DOMAIN r.vars : ProjT(r.vars[q].proj) # exp}}
-                     \cup (IF Connected(c) THEN {} ELSE {[rec |-> c.id, var |-> 0, what |-> "residue graph not connected"]})
+                  IN {[src |-> "rec", rec |-> c.id, var |-> k, what |-> "not a presentation of the same input"] : k \in {q \in DOMAIN r.vars : ~LabelOK(c, r.vars[q].var)}}
+                     \cup {[src |-> "rec", rec |-> c.id, var |-> k, what |-> "projection differs from the declared result"] : k \in {q \in DOMAIN r.vars : ProjT(r.vars[q].proj) # exp}}
+                     \cup (IF Connected(c) THEN {} ELSE {[src |-> "rec", rec |-> c.id, var |-> 0, what |-> "residue graph not connected"]})
 BadRecs == UNION {RecProblems(Doc.recs[i]) : i \in DOMAIN Doc.recs}
 (* ---- (2) repository force fields: relabelled runs against the base labelling *)
-BadOpaque == UNION {{[rec |-> Doc.opaque[i].id, var |-> k, what |-> "projection differs from the base labelling"] :
+BadOpaque == UNION {{[src |-> "opaque", rec |-> i, var |-> k, what |-> "projection differs from the base labelling"] :
                         k \in {q \in DOMAIN Doc.opaque[i].vars : Doc.opaque[i].vars[q] # Doc.opaque[i].base}} : i \in DOMAIN Doc.opaque}
 
 (* ---- (3) histories *)
